@@ -885,10 +885,78 @@ def run(ctx, res):
             other_routes(spec, recipe, res)
     setup_defaults(res)
     shared_half(res, corpus)
+    nested_half(res)
 
     res.failures.sort(key=lambda f: (case_size(f["case"]) if "steps" in f["case"]
                                      else (1, nodes(f["case"]["value"]))))
     del res.failures[2000:]
+
+
+# ---------------------------------------------------------------------------- deep, but not too deep for json
+def nested(depth, kind):
+    v = 1
+    for i in range(depth):
+        v = [v] if kind == "list" or (kind == "mixed" and i % 2) else {"k": v}
+    return v
+
+
+def nested_case(depth, kind, spec, wrapping):
+    """a JSON value nested `depth` levels (far below what json.dumps gives up on, far above what a recursive helper
+    written in Python survives): the JSON validators accept it, so the event must exist once, carry it, and be
+    serialisable - alone and inside the history of a run record (what replication sends)"""
+    from bobocep.cep.engine.receiver.receiver import BoboReceiver
+    from bobocep.cep.engine.receiver.pubsub import BoboReceiverSubscriber
+    from bobocep.cep.engine.decider.runserial import BoboRunSerial
+    from bobocep.cep.event import BoboHistory
+    from bobocep.cep.gen.event_id import BoboGenEventIDUnique
+    from bobocep.cep.gen.timestamp import BoboGenTimestampEpoch
+    v = nested(depth, kind)
+    try:
+        json.dumps(v)
+    except (RecursionError, ValueError):
+        return None                      # json itself refuses: the validators reject it, nothing to check
+    val = make_validator(spec)
+    got = []
+
+    class Sub(BoboReceiverSubscriber):
+        def on_receiver_update(self, event):
+            got.append(event)
+    rc = BoboReceiver(validator=val, gen_event_id=BoboGenEventIDUnique("u"), gen_timestamp=BoboGenTimestampEpoch())
+    rc.subscribe(Sub())
+    datum = v if wrapping == "bare" else wrap(wrapping, v, "w1", 5)
+    verdict = val.is_valid(datum)
+    rc.add_data(datum)
+    rc.update()
+    if verdict is not True:
+        return "the validator rejects a JSON value nested %d levels (json.dumps encodes it)" % depth
+    if len(got) != 1 or got[0].data is not v or (wrapping != "bare" and got[0] is not datum):
+        return "accepted, but %d events were published / the event does not carry the datum" % len(got)
+    try:
+        json.loads(got[0].to_json_str())
+    except Exception as ex:      # noqa
+        return "the accepted event cannot be serialised: %s" % type(ex).__name__
+    try:
+        json.loads(BoboRunSerial("r1", "ph", "pa", 1, BoboHistory({"g": [got[0]]})).to_json_str())
+    except Exception as ex:      # noqa
+        return "a run record holding the accepted event cannot be serialised for replication: %s" % type(ex).__name__
+    return None
+
+
+def nested_half(res):
+    n = 0
+    for depth in (60, 300, 700, 900):
+        for kind in ("list", "dict", "mixed"):
+            for spec in (["jsonable"], ["schema", "any"]):
+                for wrapping in ("bare", "simple", "complex", "action"):
+                    bad = nested_case(depth, kind, spec, wrapping)
+                    n += 1
+                    if bad:
+                        res.failures.append(dict(signature="deeply-nested-json-value", what="%s, %s, nesting %d (%s): %s"
+                                                 % (spec, wrapping, depth, kind, bad),
+                                                 case=dict(nested=True, validator=spec, value=["nest", depth, kind], depth=depth,
+                                                           kind=kind, wrap=wrapping)))
+            res.note_case(("nested", depth, kind), True)
+    res.extra["deeply_nested_values"] = n
 
 
 # ---------------------------------------------------------------------------- one instance, two users
@@ -991,6 +1059,11 @@ def replay(obj):
             print(json.dumps(obj, indent=1)[:3000])
             return 1
         case = ms[0]["case"]
+    if case.get("nested"):
+        bad = nested_case(case["depth"], case["kind"], case["validator"], case["wrap"])
+        print("JSON value nested %d levels (%s), validator %s, %s:" % (case["depth"], case["kind"], case["validator"], case["wrap"]),
+              bad or "accepted, one event carrying it, serialisable alone and inside a run record")
+        return 1 if bad else 0
     if case.get("shared"):
         ax, ix, ay, by = shared_verdicts(case["validator"], case["value"], case["other"])
         print("validator:", case["validator"], " first user's value:", case["value"], " second user's value:", case["other"])
